@@ -548,7 +548,45 @@ fn sys_run(a: &Args) -> anyhow::Result<String> {
     let proto = a.str("proto", "shard_flush");
     let seed = a.u64("seed", 1);
     let dir = PathBuf::from(a.str("dir", "/nonexistent"));
-    let mut rng2 = crate::util::rng(seed.wrapping_add(7777));
+    // retry=1: the operation of the next process in a directory that an interrupted run left behind: the same kind
+    // of operation on other, smaller data (what is written now is shorter than anything the dead process left)
+    let retry = a.has("retry");
+    let mut rng2 = crate::util::rng(seed.wrapping_add(if retry { 9999 } else { 7777 }));
+    if retry {
+        let res: Result<Result<(), String>, String> = match proto.as_str() {
+            "shard_flush" => {
+                let (s, _) = small_shard(&mut rng2, 98);
+                silent(|| s.write_to_directory(&dir).map(|_| ()).map_err(|e| format!("{e:?}")))
+            },
+            "consolidate" => silent(|| consolidate_shards_in_directory(&dir, 1 << 30).map(|_| ()).map_err(|e| format!("{e:?}"))),
+            "local_put" => {
+                let rt = sys_rt();
+                let l = rng2.gen_range(1..8usize);
+                let mut d = vec![0u8; l];
+                rng2.fill(&mut d[..]);
+                let h = compute_data_hash(&d);
+                let xh = merkledb::aggregate_hashes::cas_node_hash(&[(h, l)]);
+                let d2 = dir.clone();
+                match rt.block_on(async move { LocalClient::new(&d2, None) }) {
+                    Err(e) => Ok(Err(format!("{e:?}"))),
+                    Ok(client) => silent(|| rt.block_on(client.put("default", &xh, d, vec![(h, l as u32)])).map(|_| ()).map_err(|e| format!("{e:?}"))),
+                }
+            },
+            _ => {
+                let mut rng = crate::util::rng(seed);
+                let c = Content::new(&mut rng, 2, 4, 40);
+                let cap = a.u64("cap", 1000);
+                match silent(|| DiskCache::initialize(&CacheConfig { cache_directory: dir.clone(), cache_size: cap })) {
+                    Ok(Ok(cache)) => {
+                        let (idx, d) = c.data(0, 2, 3);
+                        silent(|| cache.put(&c.keys[0], &ChunkRange { start: 2, end: 3 }, &idx, &d).map_err(|e| format!("{e:?}")))
+                    },
+                    _ => Ok(Err("initialize failed".into())),
+                }
+            },
+        };
+        return Ok(json!({"driver": "atomicfs", "mode": "sys_run", "retry": true, "ok": matches!(res, Ok(Ok(()))), "res": format!("{res:?}")}).to_string());
+    }
     let res: Result<Result<(), String>, String> = match proto.as_str() {
         "shard_flush" => {
             let (s, _) = small_shard(&mut rng2, 99);
@@ -672,7 +710,7 @@ fn sys_describe(a: &Args) -> anyhow::Result<String> {
                 describe_cache_dir(&c, &dir, meta["extra"]["cap"].as_u64().unwrap_or(1000), &before)
             },
         };
-        v["ev"] = json!("AfSysCrash");
+        v["ev"] = json!(if d.ends_with('r') && d.starts_with('k') { "AfSysRetry" } else { "AfSysCrash" });
         v["dir"] = json!(d);
         out.push(v.to_string());
     }
